@@ -100,6 +100,31 @@ CHECKS["C18"] = dict(
     technique="property-based testing: sequential model (LRU, wait list) and generated multi-threaded stress with invariant oracles and an exact all-parked stall detector",
 )
 
+CHECKS["C02"] = dict(
+    engine="sysshim",
+    category="fault_enumeration",
+    text="Fault enumeration over generated histories: an in-binary libc shim numbers every file-system mutating call the store issues; each history is re-executed in a child process and killed before call k (every k in the thorough tier and for short histories, a class-stratified sample otherwise) under persistence models (a), (b) lose-all and (b) torn, and with call k failing with EIO / ENOSPC; a fresh process reopens the image and its contents (point reads and full scan, before and after a verifier pass and another reopen) must equal the model after the acknowledged ops, optionally plus the one in-flight op. The space of crash points of one history is enumerated exhaustively in the thorough tier; histories and configurations are sampled.",
+    design_ref="DESIGN.md §5 C02",
+    note="Directory-entry durability is not modelled (neither persistence model of the property loses directory operations). The shim relies on std and sst calling libc through the PLT (verified: counts and traces are produced). Recovered images satisfying the R-D predicate are excluded and counted.",
+    technique="fault injection / crash-point enumeration over property-based generated histories, with a sequential model oracle",
+)
+CHECKS["C13"] = dict(
+    engine="sysshim",
+    category="fault_enumeration",
+    text="Three parts over generated edit / rollover / reopen sequences with adversarial strings: a fault-free model comparison (plus Manifest::verify and an independent fragment-chain parser), truncation of the live MANIFEST at every byte (small files) or generated bytes, and crash enumeration under the libc shim before every mutating call of apply and rollover in persistence models (a), (b) lose-all, (b) torn; reopening must yield a prefix state that contains every acknowledged edit, or (cuts inside a write only) an explicit error.",
+    design_ref="DESIGN.md §5 C13",
+    note="Info keys are ASCII; '+' and '-' as info keys are out of domain; directory operations are durable once they return.",
+    technique="property-based testing against a set/map model plus crash-point and truncation enumeration",
+)
+CHECKS["C16"] = dict(
+    engine="pbt",
+    category="exploration",
+    text="Generated pairs and triples of tuples correlated by construction (equal prefix, then differ; integers at byte-length and sign boundaries; strings/bytes with NUL, 0xff, empty, prefix pairs) under generated schemas, for both formats: encoded order equals tuple order with per-element direction, extensions stay contiguous, decode(encode) is the identity (parser, iterator, schema, derive), and arbitrary or mutated bytes never panic the decoders. An exhaustive family of 219 024 short descending-string pairs pins down known finding R-N exactly.",
+    design_ref="DESIGN.md §5 C16",
+    note="tuple_key has no bytes type and fixed-width integers; tuple_key2 has no directions; tuples are compared under identical schemas only. R-N (descending strings in tuple_key) is excluded by an independent predicate and counted.",
+    technique="property-based testing (proptest) with order / round-trip oracles and a small exhaustive family",
+)
+
 NOT_YET = {
 }
 
@@ -136,6 +161,7 @@ def main():
         },
         "engines": [
             {"name": "store-driver", "path": "harness/vstore/src/driver.rs", "serves_properties": sorted(k for k, v in CHECKS.items() if v["engine"] == "store-driver"), "kind_free_text": "single-threaded model-based step driver over KeyValueStore / LsmTree: generated op vectors interpreted against the real store (per-case directory on tmpfs) and an in-memory model; flush, compaction step, verifier pass and reopen are ops thanks to the step hooks"},
+            {"name": "sysshim", "path": "harness/vstore/src/shim.rs", "serves_properties": ["C02", "C08", "C13"], "kind_free_text": "in-binary interposition of libc entry points (open/open64, write, pwrite64, fsync, fdatasync, ftruncate64, rename, link/linkat, unlink/unlinkat, mkdir, rmdir, close) forwarded through dlsym(RTLD_NEXT): counts and traces mutating calls under the store root, _exits before call k with optional loss of unsynced bytes, or fails call k with EIO/ENOSPC; driven by crash.rs / manicheck.rs with child processes"},
             {"name": "conc", "path": "harness/c18/src/conc.rs", "serves_properties": ["C18"], "kind_free_text": "real OS threads running generated per-thread programs with generated delays / CPU pinning, invariant oracles, and an exact all-parked stall detector (per-thread /proc syscall state + context-switch counters)"},
             {"name": "pbt", "path": "harness/vcore", "serves_properties": sorted(CHECKS.keys()), "kind_free_text": "proptest TestRunner driven from per-property binaries; 16 worker processes, fixed case counts, seeds derived from VERIF_SEED; shrinking; JSON replay files; evidence written by the parent process"},
         ],
